@@ -182,7 +182,7 @@ pub fn prop() -> Prop {
         gen,
         check,
         panic_is_violation: true,
-        budget: (250_000, 8_000_000),
+        budget: (1500000, 48000000),
         extra: Some(extra),
         required: &["protruding_line", "multi_row_multi_column", "ragged_last_column", "nonzero_remainder", "columns_clamped_to_width_1"],
         known: None,
